@@ -96,6 +96,10 @@ import lib_containers as LC
 
 
 def ss_job(name, qfn, fn, spec, clause, **kw):
+    if any('__CPROVER_is_fresh(self->storage_' in r for r in spec.get('requires', [])) and 'obj_buffers' not in spec:
+        # Buffer / SetLength extend the length over fresh (indeterminate) storage: contents are not comparable between two runs
+        keep = '0' if name.startswith(('Buffer', 'SetLength')) else 'o_self.length_'
+        spec = dict(spec, obj_buffers=[('o_self.storage_', 'o_self.capacity_', 'char', keep)])
     j = dict(name='StringStream<char>.%s' % name, unit=LC.UNIT, fn=fn, roots=[QSS + '::' + qfn], specs={fn: spec, COPY: copy_callee()}, replace=[COPY],
              ghosts=LC.GH, solver='cadical', timeout=600, objbits=10, must_have=['postcondition'], clause=clause, cex_K=4)
     if kw.pop('nocopy', False):
@@ -197,6 +201,8 @@ QST = 'Qentem::String<char>'
 
 
 def st_job(name, qfn, fn, spec, clause, **kw):
+    if any('__CPROVER_is_fresh(self->storage_' in r for r in spec.get('requires', [])) and 'obj_buffers' not in spec:
+        spec = dict(spec, obj_buffers=[('o_self.storage_', 'o_self.length_ + 1', 'char', 'o_self.length_ + 1')])
     j = dict(name='String<char>.%s' % name, unit=LC.UNIT, fn=fn, roots=[QST + '::' + qfn], specs={fn: spec, COPY: copy_callee()}, replace=[COPY],
              ghosts=LC.GH, solver='cadical', timeout=600, objbits=10, must_have=['postcondition'], clause=clause, cex_K=4)
     if kw.pop('nocopy', False):
